@@ -252,6 +252,12 @@ class ListGen:
                     self.loop_extra += [f"{g}[{row}].remove({first})", f"mon.write({g}[{row}][len({g}[{row}]) - 1])", f"for {j}b in range(len({g}[{row}])):", f"    mon.write({g}[{row}][{j}b])",
                                         f"{g}[{row}].append({first})"]
             self.features.add("nested-list-row-append-remove")
+        if r.random() < 0.4:
+            # back-to-back appends to one list, the later argument indexing an element the earlier append created (Fibonacci style)
+            k = self.fresh("seq")
+            self.L += [f"{k} = [1]", f"{k}.append(1)", f"{k}.append({k}[-1] + {k}[-2])", f"mon.write({k}[2])"]
+            self.loop_extra += [f"{k}.append({k}[-1] + {k}[-2])", f"{k}.append({k}[-1] - {k}[-3])", f"mon.write({k}[-1])", f"{k}.remove({k}[-1])", f"{k}.remove({k}[-1])", f"mon.write(len({k}))"]
+            self.features.add("consecutive-appends-reading-previous")
         if "list-alias" in self.hz:
             src = r.choice(names)
             al = self.fresh("alias")
